@@ -5,57 +5,263 @@
 //!   case v=<0 plain|1 flex|2 merkle> now=<ns> <free text>
 //!   t <ns>
 //!   inst sender= start= end= limit= pal= members=a,b counts=n,m whale=<n|-> admins=a,b mut=<0|1> funds=d:a rootkind=<0..3> urikind=<0..4>
-//!        (+ witness ` root=<0|1> uri=<0|1>`: what the contract's own `verify_merkle_root` / `verify_tree_uri` say)
+//!        (+ witness ` envok=<0|1>`: the SAME message with a canonical valid schedule instantiates on a scratch chain, i.e. every
+//!         check that is not about the schedule passes — those checks belong to C11/C05, not to C12)
 //!   start sender= t= [funds=]      end sender= t= [funds=]
-//!   remove sender= members=a,b     (+ witness ` present=<0|1>`: HasMember for each before the call, no repetition)
-//!   pal sender= n=                 admins sender= list=a,b        freeze sender=
-//!   add sender= members= counts=   inclimit sender= n= funds=     (+ witness ` res=<0|1>`: the outcome; schedule must not move)
+//!   remove sender= members=a,b     (+ witness ` present=<0|1>`: every address is in the harness's OWN member bookkeeping, no repetition)
+//!   admins sender= list=a,b        freeze sender=
+//!   pal sender= n=  |  add sender= members= counts=  |  inclimit sender= n= funds=  |  x name=<variant> k=<n> sender=  |  migrate sender= from=<0|1>
+//!        (+ witness ` res=<0|1>`: the outcome; these messages are environment for C12 — the schedule and the members must not move)
 //!   can a=
+//!
+//! Answers: `<ok|err> now= s= e= act= st= en= cact= adm=<sorted set> mut= ## pal=`; only the part before ` ## ` is C12's projection.
+//!
+//! Round 3: (1) the message surface is enumerated at RUN TIME from the crates' JSON schemas (`schema_for!(ExecuteMsg)`); every variant
+//! without a named op — and a few probes such as the unrouted `update_merkle_tree` — is sent as raw JSON (`x`) under the frame /
+//! member monitors, and `migrate` is run; (2) monitor truths are independent of the queries under test: the schedule is read from
+//! the contract's STORAGE (layout-free scan), the clock, the admin list and the member set are the harness's own bookkeeping of
+//! what it sent; (3) non-schedule checks are witnesses, `pal=`/`can=` are behind ` ## `, the admin list is compared as a set;
+//! (4) no query-shape `unwrap`: an unreadable answer is rendered `?` and becomes a disagreement, not a crash.
 use cosmwasm_std::{coin, Addr, BlockInfo, Coin, Timestamp};
 use cw_multi_test::{BankSudo, Executor, SudoMsg};
 use lp_harness::boxes::{self, App};
 use lp_harness::world::*;
 use lp_harness::*;
-use serde_json::{json, Value};
+use serde_json::{json, Map, Value};
+use std::collections::BTreeSet;
 
 const G: u64 = sg_utils::GENESIS_MINT_START_TIME;
 const VN: [&str; 3] = ["whitelist", "whitelist-flex", "whitelist-merkletree"];
 /// accounts that ever send messages (all funded in both denoms)
 const SENDERS: [u64; 6] = [10, 11, 12, 13, 20, 21];
+/// the wasm-level admin of every instantiated contract (may call `migrate`)
+const WASM_ADMIN: u64 = 10;
+
+// ------------------------------------------------------------------------------------------------ run-time message surface
+
+/// named op -> top-level JSON key of the message it sends
+const NAMED: [(&str, &str); 8] = [
+    ("start", "update_start_time"),
+    ("end", "update_end_time"),
+    ("add", "add_members"),
+    ("remove", "remove_members"),
+    ("pal", "update_per_address_limit"),
+    ("inclimit", "increase_member_limit"),
+    ("admins", "update_admins"),
+    ("freeze", "freeze"),
+];
+/// message names that are in NO schema today but are plausible ways to bend a schedule (sent to every variant as raw JSON):
+/// the Merkle crate's unrouted `execute_update_merkle_tree`, a generic config setter, and a name nobody has
+const PROBES: [&str; 4] = ["update_merkle_tree", "update_config", "update_stage_config", "no_such_message"];
+
+fn exec_schema(v: usize) -> Value {
+    use cosmwasm_schema::schema_for;
+    let r = match v {
+        0 => serde_json::to_value(schema_for!(sg_whitelist::msg::ExecuteMsg)),
+        1 => serde_json::to_value(schema_for!(sg_whitelist_flex::msg::ExecuteMsg)),
+        _ => serde_json::to_value(schema_for!(whitelist_mtree::msg::ExecuteMsg)),
+    };
+    r.unwrap_or(Value::Null)
+}
+
+/// (variant name in snake case, schema of its payload; None for a unit variant serialised as a bare string)
+fn schema_variants(root: &Value) -> Vec<(String, Option<Value>)> {
+    let mut out = vec![];
+    let mut alts: Vec<Value> = vec![];
+    for k in ["oneOf", "anyOf"] {
+        if let Some(a) = root[k].as_array() {
+            alts.extend(a.iter().cloned());
+        }
+    }
+    if alts.is_empty() {
+        alts.push(root.clone());
+    }
+    for alt in alts {
+        if let Some(en) = alt["enum"].as_array() {
+            for e in en {
+                if let Some(s) = e.as_str() {
+                    out.push((s.to_string(), None));
+                }
+            }
+        } else if let Some(req) = alt["required"].as_array() {
+            if let Some(name) = req.first().and_then(|x| x.as_str()) {
+                out.push((name.to_string(), Some(alt["properties"][name].clone())));
+            }
+        }
+    }
+    out.sort_by(|a, b| a.0.cmp(&b.0));
+    out.dedup_by(|a, b| a.0 == b.0);
+    out
+}
+
+/// minimal JSON value for a schema. `k` is a TIME: every string / 64-bit integer (Timestamp = Uint64 = string) becomes `k`, so that a
+/// new message carrying a start or end time gets boundary-exact values; small integers get `k % 5 + 1`.
+fn fill(s: &Value, defs: &Value, k: u64, hint: &str, depth: u32) -> Value {
+    if depth > 8 {
+        return Value::Null;
+    }
+    if let Some(r) = s["$ref"].as_str() {
+        let name = r.rsplit('/').next().unwrap_or("");
+        return fill(&defs[name], defs, k, hint, depth + 1);
+    }
+    if let Some(a) = s["allOf"].as_array() {
+        if let Some(f) = a.first() {
+            return fill(f, defs, k, hint, depth + 1);
+        }
+    }
+    for key in ["anyOf", "oneOf"] {
+        if let Some(a) = s[key].as_array() {
+            // options: fill the non-null alternative (an optional end time must be sent, not omitted)
+            if let Some(f) = a.iter().find(|x| x["type"] != "null") {
+                if let Some(req) = f["required"].as_array().and_then(|r| r.first()).and_then(|x| x.as_str()) {
+                    let mut m = Map::new();
+                    m.insert(req.to_string(), fill(&f["properties"][req], defs, k, req, depth + 1));
+                    return Value::Object(m);
+                }
+                return fill(f, defs, k, hint, depth + 1);
+            }
+            return Value::Null;
+        }
+    }
+    if let Some(en) = s["enum"].as_array() {
+        return en.first().cloned().unwrap_or(Value::Null);
+    }
+    let ty: String = match &s["type"] {
+        Value::String(t) => t.clone(),
+        Value::Array(ts) => ts.iter().filter_map(|t| t.as_str()).find(|t| *t != "null").unwrap_or("").to_string(),
+        _ => String::new(),
+    };
+    let h = hint.to_lowercase();
+    match ty.as_str() {
+        "integer" | "number" => {
+            let small = matches!(s["format"].as_str(), Some("uint8") | Some("uint16") | Some("uint32") | Some("int32"));
+            if small {
+                json!(k % 5 + 1)
+            } else {
+                json!(k)
+            }
+        }
+        "string" => {
+            if h.contains("root") {
+                // a syntactically valid root that differs from the instantiated one
+                json!(format!("{:064x}", k))
+            } else if h.contains("uri") || h.contains("url") {
+                json!("https://example.com/tree.json")
+            } else if ["addr", "recipient", "member", "contract", "owner", "sender", "admin", "operator"].iter().any(|w| h.contains(w)) {
+                json!(addr(30))
+            } else {
+                json!(k.to_string())
+            }
+        }
+        "boolean" => json!(k % 2 == 1),
+        "array" => json!([]),
+        "object" => {
+            let mut m = Map::new();
+            if let Some(props) = s["properties"].as_object() {
+                // required AND optional properties: an optional `end_time` is exactly what must not be left out
+                for (name, sch) in props {
+                    m.insert(name.clone(), fill(sch, defs, k, name, depth + 1));
+                }
+            }
+            Value::Object(m)
+        }
+        _ => Value::Null,
+    }
+}
+
+/// raw message for `name`: from the schema when the crate has such a variant, otherwise a hand-made guess
+fn x_msg(schema: &Value, name: &str, k: u64) -> Value {
+    let defs = &schema["definitions"];
+    if let Some((n, sch)) = schema_variants(schema).into_iter().find(|(n, _)| n == name) {
+        return match sch {
+            None => Value::String(n),
+            Some(s) => {
+                let mut m = Map::new();
+                m.insert(n.clone(), fill(&s, defs, k, &n, 0));
+                Value::Object(m)
+            }
+        };
+    }
+    match name {
+        "update_merkle_tree" => json!({"update_merkle_tree": {"merkle_root": format!("{:064x}", k), "merkle_tree_uri": Value::Null}}),
+        "update_config" | "update_stage_config" => {
+            json!({name: {"start_time": k.to_string(), "end_time": k.to_string(), "stage_id": 0, "per_address_limit": 1}})
+        }
+        _ => json!({ name: {} }),
+    }
+}
+
+// ------------------------------------------------------------------------------------------------ observations
+
+fn opt_u64(x: &Option<u64>) -> String {
+    x.map(|v| v.to_string()).unwrap_or_else(|| "?".into())
+}
+fn opt_b(x: &Option<bool>) -> String {
+    x.map(|v| (v as u8).to_string()).unwrap_or_else(|| "?".into())
+}
+fn ts(v: &Value) -> Option<u64> {
+    v.as_str().and_then(|s| s.parse().ok()).or_else(|| v.as_u64())
+}
 
 #[derive(Clone, Debug, PartialEq, Eq)]
 struct Obs {
+    /// the harness's own clock
     now: u64,
-    start: u64,
-    end: u64,
+    /// `Config` query
+    qs: Option<u64>,
+    qe: Option<u64>,
+    /// the schedule as STORED (layout-free scan of the contract's storage), independent of every query function
+    raw: Option<(u64, u64)>,
     pal: Option<u64>,
-    act: bool,
-    st: bool,
-    en: bool,
-    cact: bool,
-    admins: Vec<u64>,
-    mutable: bool,
+    act: Option<bool>,
+    st: Option<bool>,
+    en: Option<bool>,
+    cact: Option<bool>,
+    /// AdminList query, as a sorted set
+    admins: Option<Vec<u64>>,
+    mutable: Option<bool>,
 }
 
 impl Obs {
+    /// monitor truth: the stored schedule; the reported one only when storage could not be read
+    fn sched(&self) -> Option<(u64, u64)> {
+        self.raw.or(match (self.qs, self.qe) {
+            (Some(s), Some(e)) => Some((s, e)),
+            _ => None,
+        })
+    }
+    fn s(&self) -> u64 {
+        self.sched().map(|x| x.0).unwrap_or(0)
+    }
+    fn e(&self) -> u64 {
+        self.sched().map(|x| x.1).unwrap_or(0)
+    }
     fn render(o: &Option<Obs>) -> String {
         match o {
             None => "none".into(),
             Some(o) => format!(
-                "now={} s={} e={} pal={} act={} st={} en={} cact={} adm={} mut={}",
+                "now={} s={} e={} act={} st={} en={} cact={} adm={} mut={} ## pal={}",
                 o.now,
-                o.start,
-                o.end,
-                fmt_opt(&o.pal),
-                o.act as u8,
-                o.st as u8,
-                o.en as u8,
-                o.cact as u8,
-                fmt_list(&o.admins),
-                o.mutable as u8
+                opt_u64(&o.qs),
+                opt_u64(&o.qe),
+                opt_b(&o.act),
+                opt_b(&o.st),
+                opt_b(&o.en),
+                opt_b(&o.cact),
+                o.admins.as_ref().map(|a| fmt_list(a)).unwrap_or_else(|| "?".into()),
+                opt_b(&o.mutable),
+                fmt_opt(&o.pal)
             ),
         }
     }
+}
+
+/// what the harness itself created / sent and saw accepted (never read back from the contract)
+#[derive(Clone, Debug, Default)]
+struct Ghost {
+    admins: Vec<u64>,
+    mutable: bool,
+    members: BTreeSet<u64>,
 }
 
 struct Last {
@@ -64,6 +270,21 @@ struct Last {
     ok: bool,
     pre: Option<Obs>,
     post: Option<Obs>,
+    /// sender was on the harness's own admin list before the op
+    sender_admin: bool,
+    ghost_mutable: bool,
+    ghost_admins: Vec<u64>,
+    /// members (own bookkeeping, before the op) the contract no longer reports after it
+    lost: Vec<u64>,
+    /// Merkle: the root (= the member set) before and after the op
+    root: (Option<String>, Option<String>),
+    wit: String,
+}
+
+struct Scratch {
+    app: App,
+    codes: [u64; 3],
+    uses: u64,
 }
 
 struct S {
@@ -75,12 +296,16 @@ struct S {
     height: u64,
     log: Vec<String>,
     last: Option<Last>,
-    /// observation after the last op (the generators read it)
+    /// observation after the last op (the generators read it; it is also the `pre` of the next op)
     cur: Option<Obs>,
-}
-
-fn ts(v: &Value) -> u64 {
-    v.as_str().and_then(|s| s.parse().ok()).expect("timestamp")
+    ghost: Option<Ghost>,
+    /// Merkle: the root reported after the last op
+    root: Option<String>,
+    scratch: Option<Scratch>,
+    schemas: [Value; 3],
+    /// (variant, top-level key) of every message sent, drained by `do_op` into coverage classes
+    sent: Vec<String>,
+    raw_unreadable: u64,
 }
 
 fn root_string(kind: u64) -> String {
@@ -101,9 +326,76 @@ fn uri_option(kind: u64) -> Option<String> {
     }
 }
 
+fn box_of(v: usize) -> boxes::Boxed {
+    match v {
+        0 => boxes::whitelist(),
+        1 => boxes::whitelist_flex(),
+        _ => boxes::whitelist_mtree(),
+    }
+}
+
+fn fund_senders(app: &mut App) {
+    for s in SENDERS {
+        app.sudo(SudoMsg::Bank(BankSudo::Mint { to_address: addr(s), amount: vec![coin(1u128 << 100, denom(1)), coin(1u128 << 100, denom(0))] }))
+            .expect("mint");
+    }
+}
+
+fn members_json(v: usize, members: &[u128], counts: &[u128]) -> Value {
+    if v == 1 {
+        Value::Array(
+            members
+                .iter()
+                .enumerate()
+                .map(|(i, m)| json!({"address": addr(*m as u64), "mint_count": counts.get(i).copied().unwrap_or(1) as u64}))
+                .collect(),
+        )
+    } else {
+        Value::Array(members.iter().map(|m| json!(addr(*m as u64))).collect())
+    }
+}
+
+/// the instantiate message of `line` with the given schedule
+fn inst_msg(v: usize, line: &str, start: u64, end: u64) -> Value {
+    let limit = kv_u64(line, "limit").unwrap_or(0);
+    let pal = kv_u64(line, "pal").unwrap_or(0);
+    let members = kv_list(line, "members").unwrap_or_default();
+    let counts = kv_list(line, "counts").unwrap_or_default();
+    let whale = kv_opt_u64(line, "whale").unwrap_or(None);
+    let admins: Vec<String> = kv_list(line, "admins").unwrap_or_default().iter().map(|x| addr(*x as u64)).collect();
+    let mutable = kv_bool(line, "mut").unwrap_or(true);
+    let root = root_string(kv_u64(line, "rootkind").unwrap_or(0));
+    let uri = uri_option(kv_u64(line, "urikind").unwrap_or(0));
+    let price = json!({"denom": denom(0), "amount": "1000000"});
+    match v {
+        0 => json!({"members": members_json(v, &members, &counts), "start_time": start.to_string(), "end_time": end.to_string(),
+            "mint_price": price, "per_address_limit": pal, "member_limit": limit, "admins": admins, "admins_mutable": mutable}),
+        1 => json!({"members": members_json(v, &members, &counts), "start_time": start.to_string(), "end_time": end.to_string(),
+            "mint_price": price, "member_limit": limit, "admins": admins, "admins_mutable": mutable, "whale_cap": whale}),
+        _ => json!({"merkle_root": root, "merkle_tree_uri": uri, "start_time": start.to_string(), "end_time": end.to_string(),
+            "mint_price": price, "per_address_limit": pal, "admins": admins, "admins_mutable": mutable}),
+    }
+}
+
 impl S {
     fn new() -> S {
-        S { app: boxes::custom_mock_app(), v: 0, code: 0, contract: None, now: 0, height: 1, log: vec![], last: None, cur: None }
+        S {
+            app: boxes::custom_mock_app(),
+            v: 0,
+            code: 0,
+            contract: None,
+            now: 0,
+            height: 1,
+            log: vec![],
+            last: None,
+            cur: None,
+            ghost: None,
+            root: None,
+            scratch: None,
+            schemas: [exec_schema(0), exec_schema(1), exec_schema(2)],
+            sent: vec![],
+            raw_unreadable: 0,
+        }
     }
 
     fn set_time(&mut self, t: u64) {
@@ -112,53 +404,104 @@ impl S {
         self.app.set_block(BlockInfo { height: self.height, time: Timestamp::from_nanos(t), chain_id: "stargaze-1".into() });
     }
 
-    fn q(&self, msg: Value) -> Value {
-        let c = self.contract.as_ref().unwrap();
-        self.app.wrap().query_wasm_smart::<Value>(c.clone(), &msg).unwrap_or_else(|e| panic!("query {msg} failed: {e}"))
+    /// a query that cannot crash the run: any failure (message shape, answer shape, panic) is `None`
+    fn q(&self, msg: Value) -> Option<Value> {
+        let c = self.contract.clone()?;
+        catch(|| self.app.wrap().query_wasm_smart::<Value>(c, &msg).ok()).ok().flatten()
     }
 
-    fn obs(&self) -> Option<Obs> {
-        self.contract.as_ref()?;
-        let cfg = self.q(json!({"config": {}}));
-        let adm = self.q(json!({"admin_list": {}}));
-        Some(Obs {
-            now: self.now,
-            start: ts(&cfg["start_time"]),
-            end: ts(&cfg["end_time"]),
-            pal: cfg.get("per_address_limit").and_then(|x| x.as_u64()),
-            act: self.q(json!({"is_active": {}}))["is_active"].as_bool().unwrap(),
-            st: self.q(json!({"has_started": {}}))["has_started"].as_bool().unwrap(),
-            en: self.q(json!({"has_ended": {}}))["has_ended"].as_bool().unwrap(),
-            cact: cfg["is_active"].as_bool().unwrap(),
-            admins: adm["admins"].as_array().unwrap().iter().map(|a| addr_id(a.as_str().unwrap())).collect(),
-            mutable: adm["mutable"].as_bool().unwrap(),
-        })
-    }
-
-    fn has_member(&self, id: u64) -> bool {
-        if self.v == 2 {
-            return false;
+    /// The schedule as STORED. Layout-free: scan the contract's raw storage for the JSON object that carries both `start_time` and
+    /// `end_time` (no key names, no prefixes — a renamed item or namespace does not matter). `None` if there is not exactly one.
+    fn raw_schedule(&self) -> Option<(u64, u64)> {
+        let c = self.contract.as_ref()?;
+        let mut found: Vec<(u64, u64)> = vec![];
+        for (_k, val) in self.app.dump_wasm_raw(c) {
+            if val.first() != Some(&b'{') {
+                continue;
+            }
+            let Ok(j) = serde_json::from_slice::<Value>(&val) else { continue };
+            if let (Some(s), Some(e)) = (j.get("start_time").and_then(ts), j.get("end_time").and_then(ts)) {
+                found.push((s, e));
+            }
         }
-        self.q(json!({"has_member": {"member": addr(id)}}))["has_member"].as_bool().unwrap()
-    }
-
-    fn members_json(&self, members: &[u128], counts: &[u128]) -> Value {
-        if self.v == 1 {
-            Value::Array(
-                members
-                    .iter()
-                    .enumerate()
-                    .map(|(i, m)| json!({"address": addr(*m as u64), "mint_count": counts.get(i).copied().unwrap_or(1) as u64}))
-                    .collect(),
-            )
+        if found.len() == 1 {
+            Some(found[0])
         } else {
-            Value::Array(members.iter().map(|m| json!(addr(*m as u64))).collect())
+            None
         }
+    }
+
+    fn obs(&mut self) -> Option<Obs> {
+        self.contract.as_ref()?;
+        let cfg = self.q(json!({"config": {}})).unwrap_or(Value::Null);
+        let adm = self.q(json!({"admin_list": {}})).unwrap_or(Value::Null);
+        let flag = |name: &str| self.q(json!({ name: {} })).and_then(|r| r[name].as_bool());
+        let raw = self.raw_schedule();
+        let admins = adm["admins"].as_array().map(|l| {
+            let mut v: Vec<u64> = l.iter().map(|a| addr_id(a.as_str().unwrap_or("?"))).collect();
+            v.sort();
+            v.dedup();
+            v
+        });
+        let o = Obs {
+            now: self.now,
+            qs: ts(&cfg["start_time"]),
+            qe: ts(&cfg["end_time"]),
+            raw,
+            pal: cfg.get("per_address_limit").and_then(|x| x.as_u64()),
+            act: flag("is_active"),
+            st: flag("has_started"),
+            en: flag("has_ended"),
+            cact: cfg["is_active"].as_bool(),
+            admins,
+            mutable: adm["mutable"].as_bool(),
+        };
+        if o.raw.is_none() {
+            self.raw_unreadable += 1;
+        }
+        Some(o)
+    }
+
+    fn has_member(&self, id: u64) -> Option<bool> {
+        if self.v == 2 {
+            return None;
+        }
+        self.q(json!({"has_member": {"member": addr(id)}})).and_then(|r| r["has_member"].as_bool())
     }
 
     fn exec_json(&mut self, sender: u64, msg: Value, funds: &[Coin]) -> bool {
         let Some(c) = self.contract.clone() else { return false };
+        let key = match &msg {
+            Value::String(s) => s.clone(),
+            Value::Object(m) => m.keys().next().cloned().unwrap_or_default(),
+            _ => String::new(),
+        };
+        self.sent.push(format!("sent:{}:{key};", VN[self.v]));
         self.app.execute_contract(a(sender), c, &msg, funds).is_ok()
+    }
+
+    /// every non-schedule instantiate check passes? Asked of the real code, on a scratch chain, with a canonical valid schedule.
+    fn env_ok(&mut self, line: &str, sender: u64, funds: &[Coin]) -> bool {
+        if self.scratch.as_ref().map(|s| s.uses > 4000).unwrap_or(true) {
+            let mut app = boxes::custom_mock_app();
+            let codes = [app.store_code(box_of(0)), app.store_code(box_of(1)), app.store_code(box_of(2))];
+            fund_senders(&mut app);
+            self.scratch = Some(Scratch { app, codes, uses: 0 });
+        }
+        let start = self.now.max(G) + 10;
+        let msg = inst_msg(self.v, line, start, start + 10);
+        let (now, height, v) = (self.now, self.height, self.v);
+        let sc = self.scratch.as_mut().unwrap();
+        sc.uses += 1;
+        sc.app.set_block(BlockInfo { height, time: Timestamp::from_nanos(now), chain_id: "stargaze-1".into() });
+        let code = sc.codes[v];
+        match catch(|| sc.app.instantiate_contract(code, a(sender), &msg, funds, "wl", None).is_ok()) {
+            Ok(r) => r,
+            Err(_) => {
+                self.scratch = None;
+                false
+            }
+        }
     }
 
     /// returns (witness suffix, ok)
@@ -166,6 +509,7 @@ impl S {
         let op = line.split_whitespace().next().unwrap_or("");
         let sender = kv_u64(line, "sender").unwrap_or(0);
         let funds: Vec<Coin> = kv_pairs(line, "funds").map(|p| coins_of(&p)).unwrap_or_default();
+        let ids = |key: &str| -> Vec<u64> { kv_list(line, key).unwrap_or_default().iter().map(|x| *x as u64).collect() };
         match op {
             "t" => {
                 let t: u64 = line.split_whitespace().nth(1).and_then(|x| x.parse().ok()).expect("t <ns>");
@@ -175,68 +519,104 @@ impl S {
             "inst" => {
                 let start = kv_u64(line, "start").unwrap();
                 let end = kv_u64(line, "end").unwrap();
-                let limit = kv_u64(line, "limit").unwrap();
-                let pal = kv_u64(line, "pal").unwrap();
-                let members = kv_list(line, "members").unwrap();
-                let counts = kv_list(line, "counts").unwrap();
-                let whale = kv_opt_u64(line, "whale").unwrap();
-                let admins: Vec<String> = kv_list(line, "admins").unwrap().iter().map(|x| addr(*x as u64)).collect();
-                let mutable = kv_bool(line, "mut").unwrap();
-                let root = root_string(kv_u64(line, "rootkind").unwrap());
-                let uri = uri_option(kv_u64(line, "urikind").unwrap());
-                // opaque predicates: asked of the contract's own helpers (hex decoding, Url::parse)
-                let root_ok = whitelist_mtree::helpers::crypto::verify_merkle_root(&root).is_ok();
-                let uri_ok = whitelist_mtree::helpers::utils::verify_tree_uri(&uri).is_ok();
-                let price = json!({"denom": denom(0), "amount": "1000000"});
-                let msg = match self.v {
-                    0 => json!({"members": self.members_json(&members, &counts), "start_time": start.to_string(), "end_time": end.to_string(),
-                        "mint_price": price, "per_address_limit": pal, "member_limit": limit, "admins": admins, "admins_mutable": mutable}),
-                    1 => json!({"members": self.members_json(&members, &counts), "start_time": start.to_string(), "end_time": end.to_string(),
-                        "mint_price": price, "member_limit": limit, "admins": admins, "admins_mutable": mutable, "whale_cap": whale}),
-                    _ => json!({"merkle_root": root, "merkle_tree_uri": uri, "start_time": start.to_string(), "end_time": end.to_string(),
-                        "mint_price": price, "per_address_limit": pal, "admins": admins, "admins_mutable": mutable}),
-                };
-                let r = self.app.instantiate_contract(self.code, a(sender), &msg, &funds, "wl", None);
+                let envok = self.env_ok(line, sender, &funds);
+                let msg = inst_msg(self.v, line, start, end);
+                let r = self.app.instantiate_contract(self.code, a(sender), &msg, &funds, "wl", Some(addr(WASM_ADMIN)));
                 let ok = match r {
                     Ok(c) => {
                         self.contract = Some(c);
+                        self.ghost = Some(Ghost {
+                            admins: ids("admins"),
+                            mutable: kv_bool(line, "mut").unwrap_or(true),
+                            members: if self.v == 2 { BTreeSet::new() } else { ids("members").into_iter().collect() },
+                        });
                         true
                     }
                     Err(_) => false,
                 };
-                (format!(" root={} uri={}", root_ok as u8, uri_ok as u8), ok)
+                (format!(" envok={}", envok as u8), ok)
             }
             "start" => (String::new(), self.exec_json(sender, json!({"update_start_time": kv_u64(line, "t").unwrap().to_string()}), &funds)),
             "end" => (String::new(), self.exec_json(sender, json!({"update_end_time": kv_u64(line, "t").unwrap().to_string()}), &funds)),
             "remove" => {
-                let ms = kv_list(line, "members").unwrap();
-                let mut present = self.contract.is_some();
-                if present {
-                    let mut seen = std::collections::BTreeSet::new();
+                let ms = ids("members");
+                // `present` from the harness's OWN bookkeeping (what it instantiated / added / removed), not from HasMember
+                let mut present = self.contract.is_some() && self.ghost.is_some();
+                if let Some(g) = &self.ghost {
+                    let mut seen = BTreeSet::new();
                     for m in &ms {
-                        if !seen.insert(*m) || !self.has_member(*m as u64) {
+                        if !seen.insert(*m) || !g.members.contains(m) {
                             present = false;
                         }
                     }
                 }
-                let to_remove: Vec<String> = ms.iter().map(|m| addr(*m as u64)).collect();
+                let to_remove: Vec<String> = ms.iter().map(|m| addr(*m)).collect();
                 let ok = self.exec_json(sender, json!({"remove_members": {"to_remove": to_remove}}), &funds);
+                if ok {
+                    if let Some(g) = self.ghost.as_mut() {
+                        for m in &ms {
+                            g.members.remove(m);
+                        }
+                    }
+                }
                 (format!(" present={}", present as u8), ok)
             }
-            "pal" => (String::new(), self.exec_json(sender, json!({"update_per_address_limit": kv_u64(line, "n").unwrap()}), &funds)),
-            "admins" => {
-                let l: Vec<String> = kv_list(line, "list").unwrap().iter().map(|x| addr(*x as u64)).collect();
-                (String::new(), self.exec_json(sender, json!({"update_admins": {"admins": l}}), &funds))
+            "pal" => {
+                let ok = self.exec_json(sender, json!({"update_per_address_limit": kv_u64(line, "n").unwrap()}), &funds);
+                (format!(" res={}", ok as u8), ok)
             }
-            "freeze" => (String::new(), self.exec_json(sender, json!({"freeze": {}}), &funds)),
+            "admins" => {
+                let l = ids("list");
+                let ls: Vec<String> = l.iter().map(|x| addr(*x)).collect();
+                let ok = self.exec_json(sender, json!({"update_admins": {"admins": ls}}), &funds);
+                if ok {
+                    if let Some(g) = self.ghost.as_mut() {
+                        g.admins = l;
+                    }
+                }
+                (String::new(), ok)
+            }
+            "freeze" => {
+                let ok = self.exec_json(sender, json!({"freeze": {}}), &funds);
+                if ok {
+                    if let Some(g) = self.ghost.as_mut() {
+                        g.mutable = false;
+                    }
+                }
+                (String::new(), ok)
+            }
             "add" => {
                 let ms = kv_list(line, "members").unwrap();
-                let cs = kv_list(line, "counts").unwrap();
-                let ok = self.exec_json(sender, json!({"add_members": {"to_add": self.members_json(&ms, &cs)}}), &funds);
+                let cs = kv_list(line, "counts").unwrap_or_default();
+                let ok = self.exec_json(sender, json!({"add_members": {"to_add": members_json(self.v, &ms, &cs)}}), &funds);
+                if ok {
+                    if let Some(g) = self.ghost.as_mut() {
+                        g.members.extend(ms.iter().map(|m| *m as u64));
+                    }
+                }
                 (format!(" res={}", ok as u8), ok)
             }
             "inclimit" => {
                 let ok = self.exec_json(sender, json!({"increase_member_limit": kv_u64(line, "n").unwrap()}), &funds);
+                (format!(" res={}", ok as u8), ok)
+            }
+            "x" => {
+                // any other message variant, as raw JSON built from the crate's schema (or a guess for names no schema has)
+                let name = kv(line, "name").unwrap_or("no_such_message").to_string();
+                let k = kv_u64(line, "k").unwrap_or(0);
+                let msg = x_msg(&self.schemas[self.v], &name, k);
+                let ok = self.exec_json(sender, msg, &funds);
+                (format!(" res={}", ok as u8), ok)
+            }
+            "migrate" => {
+                let Some(c) = self.contract.clone() else { return (" res=0".into(), false) };
+                if kv_bool(line, "from").unwrap_or(false) {
+                    // pretend an older version is stored, so that the contract's migrate runs its full path (cw2's own API)
+                    let name = cw2::get_contract_version(&*self.app.contract_storage(&c)).map(|v| v.contract).unwrap_or_default();
+                    let _ = cw2::set_contract_version(&mut *self.app.contract_storage_mut(&c), name, "0.0.1");
+                }
+                self.sent.push(format!("sent:{}:migrate;", VN[self.v]));
+                let ok = self.app.migrate_contract(a(sender), c, &json!({}), self.code).is_ok();
                 (format!(" res={}", ok as u8), ok)
             }
             _ => panic!("unknown op line `{line}`"),
@@ -246,18 +626,12 @@ impl S {
     fn start_world(&mut self, header: &str) {
         self.app = boxes::custom_mock_app();
         self.v = kv_u64(header, "v").expect("case v=") as usize;
-        self.code = self.app.store_code(match self.v {
-            0 => boxes::whitelist(),
-            1 => boxes::whitelist_flex(),
-            _ => boxes::whitelist_mtree(),
-        });
+        self.code = self.app.store_code(box_of(self.v));
         self.contract = None;
+        self.ghost = None;
+        self.root = None;
         self.height = 1;
-        for s in SENDERS {
-            self.app
-                .sudo(SudoMsg::Bank(BankSudo::Mint { to_address: addr(s), amount: vec![coin(1u128 << 100, denom(1)), coin(1u128 << 100, denom(0))] }))
-                .expect("mint");
-        }
+        fund_senders(&mut self.app);
         self.set_time(kv_u64(header, "now").expect("case now="));
         self.last = None;
         self.cur = None;
@@ -277,14 +651,15 @@ impl Sut for S {
             let out = match &self.contract {
                 None => "err none".to_string(),
                 Some(_) => {
-                    let r = self.q(json!({"can_execute": {"sender": addr(kv_u64(line, "a").unwrap()), "msg": {"custom": {}}}}));
-                    format!("ok can={}", r["can_execute"].as_bool().unwrap() as u8)
+                    let r = self.q(json!({"can_execute": {"sender": addr(kv_u64(line, "a").unwrap_or(0)), "msg": {"custom": {}}}}));
+                    format!("ok ## can={}", opt_b(&r.and_then(|r| r["can_execute"].as_bool())))
                 }
             };
             self.last = None;
             return (line.to_string(), out);
         }
-        let pre = self.obs();
+        let pre = self.cur.clone();
+        let ghost_pre = self.ghost.clone().unwrap_or_default();
         let (wit, ok) = match catch(|| self.run_op(line)) {
             Ok(r) => r,
             Err(_) => {
@@ -296,8 +671,8 @@ impl Sut for S {
                 }
                 let w = match op.as_str() {
                     "remove" => " present=0",
-                    "add" | "inclimit" => " res=0",
-                    "inst" => " root=1 uri=1",
+                    "add" | "inclimit" | "pal" | "x" | "migrate" => " res=0",
+                    "inst" => " envok=0",
                     _ => "",
                 };
                 (w.to_string(), false)
@@ -305,83 +680,144 @@ impl Sut for S {
         };
         self.log.push(line.to_string());
         let post = self.obs();
+        // "members can no longer be removed": once started, everybody the harness put on the list must still be reported
+        let started = pre.as_ref().and_then(|p| p.sched().map(|(s, _)| p.now >= s)).unwrap_or(false);
+        let lost: Vec<u64> =
+            if started && op != "inst" { ghost_pre.members.iter().copied().filter(|m| self.has_member(*m) == Some(false)).collect() } else { vec![] };
+        // the Merkle whitelist's member set IS its root
+        let root_pre = self.root.clone();
+        self.root = if self.v == 2 { self.q(json!({"merkle_root": {}})).and_then(|r| r["merkle_root"].as_str().map(String::from)) } else { None };
         let out = format!("{} {}", if ok { "ok" } else { "err" }, Obs::render(&post));
         self.cur = post.clone();
-        self.last = Some(Last { line: line.to_string(), op, ok, pre, post });
+        let sender = kv_u64(line, "sender").unwrap_or(0);
+        self.last = Some(Last {
+            line: line.to_string(),
+            op,
+            ok,
+            pre,
+            post,
+            sender_admin: ghost_pre.admins.contains(&sender),
+            ghost_mutable: ghost_pre.mutable,
+            ghost_admins: ghost_pre.admins.clone(),
+            lost,
+            root: (root_pre, self.root.clone()),
+            wit: wit.clone(),
+        });
         (format!("{line}{wit}"), out)
     }
 
-    /// Direct transcription of property C12 on the implementation's own observations (no Lean model involved).
+    /// Direct transcription of property C12 on the implementation's own trace (no Lean model involved). Truths: the schedule as
+    /// STORED (`Obs::sched`), the harness's own clock, what the harness sent (instantiate arguments, admin list, member set).
     fn monitor(&mut self) -> Option<(String, String)> {
         let l = self.last.as_ref()?;
         let v = VN[self.v];
         let op = l.op.as_str();
         let bad = |op: &str, p: &str, w: String| Some((format!("{v}/{op}/{p}"), format!("{w}; after `{}` => {} {}", l.line, if l.ok { "ok" } else { "err" }, Obs::render(&l.post))));
         let post = l.post.as_ref()?;
+        let (ps, pe) = post.sched()?;
         // "start time is never after its end time and is never before the genesis mint time"
-        if post.start > post.end {
-            return bad(op, "start-after-end", format!("start {} > end {}", post.start, post.end));
+        if ps > pe {
+            return bad(op, "start-after-end", format!("stored start {ps} > end {pe}"));
         }
-        if post.start < G {
-            return bad(op, "start-before-genesis", format!("start {} < genesis {}", post.start, G));
+        if ps < G {
+            return bad(op, "start-before-genesis", format!("stored start {ps} < genesis {G}"));
         }
-        // "activity flags are consistent at every instant"
-        let want_act = post.start <= post.now && post.now < post.end;
-        if post.act != want_act {
-            return bad("query", "is-active", format!("IsActive={} but start<=now<end is {}", post.act, want_act));
+        // the Config query must report the stored schedule (all four flag clauses are about THE whitelist's start / end)
+        if let (Some((rs, re)), Some(qs), Some(qe)) = (post.raw, post.qs, post.qe) {
+            if (rs, re) != (qs, qe) {
+                return bad("query", "config-ne-stored", format!("Config reports ({qs},{qe}) but ({rs},{re}) is stored"));
+            }
         }
-        if post.st != (post.now >= post.start) {
-            return bad("query", "has-started", format!("HasStarted={} but now>=start is {}", post.st, post.now >= post.start));
+        // "activity flags are consistent at every instant" — against the stored schedule and the harness's clock
+        let want_act = ps <= post.now && post.now < pe;
+        if let Some(x) = post.act {
+            if x != want_act {
+                return bad("query", "is-active", format!("IsActive={x} but start<=now<end is {want_act}"));
+            }
         }
-        if post.en != (post.now >= post.end) {
-            return bad("query", "has-ended", format!("HasEnded={} but now>=end is {}", post.en, post.now >= post.end));
+        if let Some(x) = post.st {
+            if x != (post.now >= ps) {
+                return bad("query", "has-started", format!("HasStarted={x} but now>=start is {}", post.now >= ps));
+            }
         }
-        if post.cact != post.act {
-            return bad("query", "config-is-active", format!("Config.is_active={} but IsActive={}", post.cact, post.act));
+        if let Some(x) = post.en {
+            if x != (post.now >= pe) {
+                return bad("query", "has-ended", format!("HasEnded={x} but now>=end is {}", post.now >= pe));
+            }
+        }
+        if let Some(x) = post.cact {
+            if x != want_act {
+                return bad("query", "config-is-active", format!("Config.is_active={x} but start<=now<end is {want_act}"));
+            }
         }
         if op == "inst" {
             if l.ok {
-                // "it is created only with a start in the future"
-                if post.now >= post.start {
-                    return bad(op, "created-not-in-future", format!("created at now {} with start {}", post.now, post.start));
+                // "it is created only with a start in the future" — on what was SENT and on what was stored
+                let (ss, se) = (kv_u64(&l.line, "start").unwrap_or(0), kv_u64(&l.line, "end").unwrap_or(0));
+                if post.now >= ps || post.now >= ss {
+                    return bad(op, "created-not-in-future", format!("created at now {} with start {ss} (stored {ps})", post.now));
+                }
+                if ss > se {
+                    return bad(op, "start-after-end", format!("instantiate accepted start {ss} > end {se}"));
+                }
+                if ss < G {
+                    return bad(op, "start-before-genesis", format!("instantiate accepted start {ss} < genesis {G}"));
                 }
             }
             return None;
         }
         let pre = l.pre.as_ref()?;
+        let (s0, e0) = pre.sched()?;
         // "Once a whitelist has started its start time cannot change, its end time can only be brought forward
         //  (never extended, never before the start), and members can no longer be removed"
-        if pre.now >= pre.start {
-            if post.start != pre.start {
-                return bad(op, "start-changed-after-start", format!("start {} -> {} at now {}", pre.start, post.start, pre.now));
+        if pre.now >= s0 {
+            if ps != s0 {
+                return bad(op, "start-changed-after-start", format!("start {s0} -> {ps} at now {}", pre.now));
             }
-            if post.end > pre.end {
-                return bad(op, "end-extended-after-start", format!("end {} -> {} at now {}", pre.end, post.end, pre.now));
+            if pe > e0 {
+                return bad(op, "end-extended-after-start", format!("end {e0} -> {pe} at now {}", pre.now));
             }
             if op == "remove" && l.ok && !kv_list(&l.line, "members").unwrap_or_default().is_empty() {
-                return bad(op, "removed-after-start", format!("RemoveMembers accepted at now {} >= start {}", pre.now, pre.start));
+                return bad(op, "removed-after-start", format!("RemoveMembers accepted at now {} >= start {s0}", pre.now));
+            }
+            if !l.lost.is_empty() {
+                return bad(op, "member-lost-after-start", format!("members {:?} are gone after a message at now {} >= start {s0}", l.lost, pre.now));
+            }
+            if let (Some(r0), Some(r1)) = (&l.root.0, &l.root.1) {
+                if r0 != r1 {
+                    return bad(op, "member-lost-after-start", format!("the Merkle root (= the member set) changed {r0} -> {r1} at now {} >= start {s0}", pre.now));
+                }
             }
         }
-        // only an admin can bend the schedule / remove members (updates by non-admins must fail)
+        // nobody can un-start or re-open a whitelist (the flags themselves, independent of storage; clock not going backwards)
+        if post.now >= pre.now {
+            if pre.st == Some(true) && post.st == Some(false) {
+                return bad("query", "started-then-unstarted", format!("HasStarted went true -> false (now {} -> {})", pre.now, post.now));
+            }
+            if pre.en == Some(true) && post.en == Some(false) {
+                return bad("query", "ended-then-reopened", format!("HasEnded went true -> false (now {} -> {})", pre.now, post.now));
+            }
+        }
+        // only an admin can bend the schedule / remove members — admin = the list the harness itself installed
         let sender = kv_u64(&l.line, "sender").unwrap_or(0);
-        let is_admin = pre.admins.contains(&sender);
-        if l.ok && matches!(op, "start" | "end" | "remove" | "pal") && !is_admin {
-            return bad(op, "non-admin-accepted", format!("sender {sender} is not in {:?}", pre.admins));
+        if l.ok && matches!(op, "start" | "end" | "remove" | "pal") && !l.sender_admin {
+            return bad(op, "non-admin-accepted", format!("sender {sender} is not in {:?}", l.ghost_admins));
         }
-        if l.ok && matches!(op, "admins" | "freeze") && !(is_admin && pre.mutable) {
-            return bad(op, "non-admin-accepted", format!("sender {sender} may not modify the admin list {:?} (mutable={})", pre.admins, pre.mutable));
+        if l.ok && matches!(op, "admins" | "freeze") && !(l.sender_admin && l.ghost_mutable) {
+            return bad(op, "non-admin-accepted", format!("sender {sender} may not modify the admin list {:?} (mutable={})", l.ghost_admins, l.ghost_mutable));
         }
-        // frame: only UpdateStartTime / UpdateEndTime move the schedule; a failed message changes nothing
-        if !matches!(op, "start" | "end") && (post.start, post.end) != (pre.start, pre.end) {
-            return bad(op, "schedule-changed", format!("schedule ({},{}) -> ({},{})", pre.start, pre.end, post.start, post.end));
+        // frame: only UpdateStartTime / UpdateEndTime move the schedule (this covers the clock, every environment message, every
+        // schema-discovered variant and migrate); a failed message changes nothing
+        if !matches!(op, "start" | "end") && (ps, pe) != (s0, e0) {
+            return bad(op, "schedule-changed", format!("schedule ({s0},{e0}) -> ({ps},{pe})"));
         }
-        if op == "start" && post.end != pre.end {
-            return bad(op, "schedule-changed", format!("UpdateStartTime moved end {} -> {}", pre.end, post.end));
+        if op == "start" && pe != e0 {
+            return bad(op, "schedule-changed", format!("UpdateStartTime moved end {e0} -> {pe}"));
         }
-        if op == "end" && post.start != pre.start {
-            return bad(op, "schedule-changed", format!("UpdateEndTime moved start {} -> {}", pre.start, post.start));
+        if op == "end" && ps != s0 {
+            return bad(op, "schedule-changed", format!("UpdateEndTime moved start {s0} -> {ps}"));
         }
-        if !l.ok && (post.start, post.end, post.pal, &post.admins, post.mutable) != (pre.start, pre.end, pre.pal, &pre.admins, pre.mutable) {
+        if !l.ok && ((ps, pe), post.pal, &post.admins, post.mutable) != ((s0, e0), pre.pal, &pre.admins, pre.mutable) {
             return bad(op, "failed-op-changed-state", "a rejected message changed the stored state".into());
         }
         None
@@ -466,34 +902,78 @@ fn cls(x: u64, o: &Obs) -> String {
             None
         }
     };
-    rel("s", o.start)
-        .or_else(|| rel("e", o.end))
+    rel("s", o.s())
+        .or_else(|| rel("e", o.e()))
         .or_else(|| rel("g", G))
         .or_else(|| rel("n", o.now))
-        .unwrap_or_else(|| if x < G { "ltG".into() } else if x < o.start { "ltS".into() } else if x < o.end { "mid".into() } else { "gtE".into() })
+        .unwrap_or_else(|| if x < G { "ltG".into() } else if x < o.s() { "ltS".into() } else if x < o.e() { "mid".into() } else { "gtE".into() })
 }
 fn phase(o: &Obs) -> String {
     cls(o.now, &Obs { now: u64::MAX - 5, ..o.clone() })
 }
 
-/// step + coverage class (op kind × variant × outcome × clock phase × argument class × sender role)
+/// step + coverage classes (op kind × variant × outcome × clock phase × argument class × sender role) + the FLOOR classes
+/// (`floor:…`, `sent:…`) that `main` requires for every seed
 fn do_op(ses: &mut Session, sut: &mut S, line: &str) -> bool {
     let pre = sut.cur.clone();
     let out = ses.step(sut, line);
     let ok = out.starts_with("ok");
+    let oks = if ok { "ok" } else { "err" };
     let op = line.split_whitespace().next().unwrap_or("?");
-    if let Some(p) = pre {
-        let arg = kv_u64(line, "t").map(|t| cls(t, &p)).unwrap_or_else(|| "-".into());
-        let role = kv_u64(line, "sender").map(|s| if p.admins.contains(&s) { "adm" } else { "non" }).unwrap_or("-");
-        let shape = if p.start == p.end { "s=e" } else if p.start == G { "s=g" } else { "s<e" };
-        ses.mark(format!("{}:{op}:{}:ph={}:arg={arg}:{role}:{shape}", VN[sut.v], if ok { "ok" } else { "err" }, phase(&p)));
+    let vn = VN[sut.v];
+    for s in std::mem::take(&mut sut.sent) {
+        ses.mark(s);
+    }
+    let (adm, wit) = sut.last.as_ref().map(|l| (l.sender_admin, l.wit.clone())).unwrap_or((false, String::new()));
+    if let Some(p) = pre.filter(|p| p.sched().is_some()) {
+        let t = kv_u64(line, "t");
+        let arg = t.map(|t| cls(t, &p)).unwrap_or_else(|| "-".into());
+        let role = kv_u64(line, "sender").map(|_| if adm { "adm" } else { "non" }).unwrap_or("-");
+        let shape = if p.s() == p.e() { "s=e" } else if p.s() == G { "s=g" } else { "s<e" };
+        let ph = phase(&p);
+        ses.mark(format!("{vn}:{op}:{oks}:ph={ph}:arg={arg}:{role}:{shape}"));
+        // ---- floor classes: single-fault decisions at exact instants (only on the ordinary shape, where phases are unambiguous)
+        if shape == "s<e" && p.e() > p.s() + 2 {
+            match (op, t) {
+                ("start", Some(t)) if t <= p.e() => ses.mark(format!("floor:{vn}:start:{oks}:ph={ph}:{role}")),
+                ("end", Some(t)) if t > p.e() => ses.mark(format!("floor:{vn}:end-extend:{oks}:ph={ph}:{role}")),
+                ("end", Some(t)) if t >= p.s() => ses.mark(format!("floor:{vn}:end-shorten:{oks}:ph={ph}:{role}:arg={arg}")),
+                ("end", Some(_)) => ses.mark(format!("floor:{vn}:end-below-start:{oks}:ph={ph}:{role}:arg={arg}")),
+                ("remove", _) if wit.contains("present=1") && kv_list(line, "members").map(|m| !m.is_empty()).unwrap_or(false) => {
+                    ses.mark(format!("floor:{vn}:remove:{oks}:ph={ph}:{role}"))
+                }
+                ("x", _) | ("migrate", _) | ("pal", _) | ("add", _) | ("inclimit", _) => {
+                    let started = if p.now >= p.s() { "started" } else { "before" };
+                    let name = kv(line, "name").map(|n| format!(":{n}")).unwrap_or_default();
+                    let from = kv(line, "from").map(|n| format!(":from={n}")).unwrap_or_default();
+                    ses.mark(format!("floor:{vn}:{op}{name}{from}:{started}:{oks}"))
+                }
+                _ => {}
+            }
+        }
+    } else if op == "inst" {
+        // single-fault instantiate classes (all non-schedule checks pass = envok)
+        if wit.contains("envok=1") {
+            let (st, en, now) = (kv_u64(line, "start").unwrap_or(0) as i128, kv_u64(line, "end").unwrap_or(0) as i128, sut.now as i128);
+            let d = |x: i128| x.clamp(-2, 2);
+            ses.mark(format!("floor:{vn}:inst:{oks}:start-now={}:start-g={}:end-start={}", d(st - now), d(st - G as i128), d(en - st)));
+        }
+        ses.mark(format!("{vn}:inst:{oks}:pre-inst:{}", wit.trim()));
     } else {
-        ses.mark(format!("{}:{op}:{}:pre-inst", VN[sut.v], if ok { "ok" } else { "err" }));
+        ses.mark(format!("{vn}:{op}:{oks}:pre-inst"));
     }
     if let Some(p) = &sut.cur {
         // every observation is a flags evaluation at a clock phase
-        ses.mark(format!("{}:flags:ph={}:{}", VN[sut.v], phase(p), if p.start == p.end { "s=e" } else { "s<e" }));
-        ses.count(&format!("phase:{}", phase(p)));
+        if p.sched().is_some() {
+            ses.mark(format!("{vn}:flags:ph={}:{}", phase(p), if p.s() == p.e() { "s=e" } else { "s<e" }));
+            if p.e() > p.s() + 2 && p.act.is_some() && p.st.is_some() && p.en.is_some() && p.cact.is_some() {
+                ses.mark(format!("floor:{vn}:flags:ph={}", phase(p)));
+            }
+            ses.count(&format!("phase:{}", phase(p)));
+        }
+        if p.raw.is_some() {
+            ses.mark(format!("floor:{vn}:raw:readable"));
+        }
     }
     ok
 }
@@ -501,7 +981,7 @@ fn do_op(ses: &mut Session, sut: &mut S, line: &str) -> bool {
 /// probe the flags at the boundary instants that are still ahead of the clock (monotone)
 fn probe_boundaries(ses: &mut Session, sut: &mut S) {
     let Some(o) = sut.cur.clone() else { return };
-    let mut ts: Vec<u64> = vec![o.start.saturating_sub(1), o.start, o.start.saturating_add(1), o.end.saturating_sub(1), o.end, o.end.saturating_add(1)];
+    let mut ts: Vec<u64> = vec![o.s().saturating_sub(1), o.s(), o.s().saturating_add(1), o.e().saturating_sub(1), o.e(), o.e().saturating_add(1)];
     ts.sort();
     ts.dedup();
     for t in ts {
@@ -513,11 +993,11 @@ fn probe_boundaries(ses: &mut Session, sut: &mut S) {
 
 fn interesting_times(o: &Obs) -> Vec<u64> {
     let mut v = vec![];
-    for t in [G, o.start, o.end, o.now] {
+    for t in [G, o.s(), o.e(), o.now] {
         v.extend([t.saturating_sub(1), t, t.saturating_add(1)]);
     }
-    v.push(o.start / 2 + o.end / 2);
-    v.push(o.end.saturating_add(1000));
+    v.push(o.s() / 2 + o.e() / 2);
+    v.push(o.e().saturating_add(1000));
     v.push(0);
     v.sort();
     v.dedup();
@@ -532,6 +1012,27 @@ fn main() {
     }
     let mut rng = ses.rng.fork();
     let thorough = ses.tier() != Tier::Quick;
+
+    // ---------------------------------------------------------------- the message surface, enumerated at run time
+    // every ExecuteMsg variant of the three crates; the ones without a named op are sent as raw JSON (`x`) to EVERY whitelist
+    let named_keys: BTreeSet<&str> = NAMED.iter().map(|(_, k)| *k).collect();
+    let mut extra: BTreeSet<String> = PROBES.iter().map(|s| s.to_string()).collect();
+    for v in 0..3usize {
+        let vars = schema_variants(&sut.schemas[v]);
+        if vars.is_empty() {
+            ses.note(format!("{}: ExecuteMsg schema has no variants (schema shape changed?) — surface enumeration is blind", VN[v]));
+        }
+        for (name, _) in vars {
+            // coverage floor: every variant the crate declares must have been SENT to that crate in this run
+            ses.require(format!("sent:{}:{name};", VN[v]));
+            if !named_keys.contains(name.as_str()) {
+                ses.note(format!("{}: ExecuteMsg variant `{name}` has no named op in c12.rs — sent as raw JSON under the frame/member monitors", VN[v]));
+                ses.mark(format!("surface:{}:unknown-variant:{name}", VN[v]));
+                extra.insert(name);
+            }
+        }
+    }
+    let extra: Vec<String> = extra.into_iter().collect();
 
     // ---------------------------------------------------------------- D. the named interleavings
     for v in 0..3usize {
@@ -567,6 +1068,11 @@ fn main() {
                 "admins sender=12 list=10".into(), "freeze sender=13".into(), format!("start sender=12 t={}", s + 2), "remove sender=10 members=30".into(), "remove sender=13 members=30".into(),
                 "pal sender=10 n=4".into(), "pal sender=13 n=30".into(), "pal sender=13 n=31".into(), "pal sender=13 n=0".into(),
             ]),
+            // the admin list as a SET: duplicates and order must not matter for who may bend the schedule
+            ("admin-list-order-and-duplicates", vec![
+                "admins sender=10 list=13,12,13,11".into(), format!("end sender=13 t={}", e - 1), format!("end sender=11 t={}", e - 2), format!("end sender=10 t={}", e - 3),
+                "can a=13".into(), "can a=10".into(), "admins sender=12 list=-".into(), format!("start sender=12 t={}", s + 1), format!("t {}", s), format!("end sender=11 t={}", e + 5),
+            ]),
             ("end-before-now-after-start", vec![
                 format!("t {}", s + 50), format!("end sender=10 t={}", s + 50), format!("end sender=10 t={}", s + 51), format!("end sender=10 t={}", s + 10),
                 format!("end sender=10 t={}", s), "remove sender=10 members=31".into(), "add sender=10 members=36 counts=1".into(),
@@ -574,6 +1080,14 @@ fn main() {
             ("membership-then-remove", vec![
                 "add sender=10 members=33,34 counts=1,2".into(), "remove sender=10 members=33,35".into(), "remove sender=10 members=33".into(), "remove sender=10 members=33".into(),
                 format!("inclimit sender=20 n=1001 funds=0:{}", fee_for(v, 1000)), format!("t {}", s), "remove sender=10 members=34".into(), "add sender=10 members=33 counts=1".into(),
+                "remove sender=10 members=33".into(), "remove sender=10 members=30,31,32,34".into(),
+            ]),
+            // same block, repeated: the second identical update in one block, a shorten between two extension attempts, a removal
+            // between two start updates
+            ("same-block-repeats", vec![
+                format!("t {}", s - 1), format!("start sender=10 t={}", s - 1), format!("start sender=10 t={}", s - 1), format!("start sender=10 t={}", s),
+                "remove sender=10 members=30".into(), "remove sender=10 members=31".into(), format!("end sender=10 t={}", e + 1), format!("end sender=10 t={}", e - 1),
+                format!("end sender=10 t={}", e), format!("end sender=10 t={}", e - 1), format!("end sender=10 t={}", e - 1),
             ]),
         ];
         for (name, ops) in scripts {
@@ -585,6 +1099,69 @@ fn main() {
             probe_boundaries(&mut ses, &mut sut);
             ses.end_case();
         }
+    }
+
+    // ---------------------------------------------------------------- S. surface tour: every other entry point, at every phase
+    // One case per (variant, message name): the message is sent by an admin (and by a stranger) with time-valued payloads at
+    // {before start, start-1, start, mid, end, end+1}; `migrate` (same version, and from a pretended older version) likewise.
+    for v in 0..3usize {
+        let (s, e) = (G + 100, G + 200);
+        let phases = [G + 60, s - 1, s, s + 50, e, e + 1];
+        for name in extra.iter().map(|n| format!("x name={n}")).chain(["migrate".to_string()]) {
+            ses.begin_case(&mut sut, &format!("case v={v} now={} surface {name}", G + 50));
+            do_op(&mut ses, &mut sut, &Inst::valid(v, s, e).line());
+            for now in phases {
+                do_op(&mut ses, &mut sut, &format!("t {now}"));
+                if name == "migrate" {
+                    do_op(&mut ses, &mut sut, "migrate sender=10 from=0");
+                    do_op(&mut ses, &mut sut, "migrate sender=20 from=0");
+                    do_op(&mut ses, &mut sut, "migrate sender=10 from=1");
+                    // the schedule must still be bendable exactly as before
+                    do_op(&mut ses, &mut sut, &format!("end sender=10 t={}", e + 7));
+                } else {
+                    for k in [G - 1, now - 1, now + 1, s + 7, e + 7] {
+                        do_op(&mut ses, &mut sut, &format!("{name} k={k} sender=10"));
+                    }
+                    do_op(&mut ses, &mut sut, &format!("{name} k={} sender=20", e + 9));
+                }
+            }
+            ses.end_case();
+        }
+    }
+
+    // ---------------------------------------------------------------- M. lists beyond the paging limits (26, 101 members)
+    // "members can no longer be removed" on lists longer than one default page (25) and one maximal page (100): before the start a
+    // 26-member removal works, from the start on nothing — not a removal, not any other message — makes a member disappear.
+    for v in 0..2usize {
+        let (s, e) = (G + 100, G + 200);
+        let all: Vec<u64> = (100..=200).collect(); // 101 members
+        let mut inst = Inst::valid(v, s, e);
+        inst.members = all.clone();
+        inst.counts = vec![];
+        ses.begin_case(&mut sut, &format!("case v={v} now={} big-list", G + 50));
+        do_op(&mut ses, &mut sut, &inst.line());
+        let ok26 = do_op(&mut ses, &mut sut, &format!("remove sender=10 members={}", fmt_list(&all[..26])));
+        ses.mark(format!("floor:{}:big:remove-26-before-start:{}", VN[v], ok26));
+        do_op(&mut ses, &mut sut, &format!("add sender=10 members={} counts=-", fmt_list(&(201..=230).collect::<Vec<u64>>())));
+        do_op(&mut ses, &mut sut, &format!("t {}", s - 1));
+        do_op(&mut ses, &mut sut, &format!("remove sender=10 members={}", fmt_list(&all[26..27])));
+        do_op(&mut ses, &mut sut, &format!("t {s}"));
+        let r1 = do_op(&mut ses, &mut sut, &format!("remove sender=10 members={}", fmt_list(&all[27..53])));
+        // … and everybody who is still on the list (own bookkeeping: 74 of the original 101 + the 30 added), in one message
+        let rest: Vec<u64> = sut.ghost.as_ref().map(|g| g.members.iter().copied().collect()).unwrap_or_default();
+        ses.count(&format!("big-list:members-at-start:{}", rest.len()));
+        let r2 = do_op(&mut ses, &mut sut, &format!("remove sender=10 members={}", fmt_list(&rest)));
+        ses.mark(format!("floor:{}:big:remove-after-start:{}:{}", VN[v], r1, r2));
+        for n in &extra {
+            do_op(&mut ses, &mut sut, &format!("x name={n} k={} sender=10", s + 1));
+        }
+        do_op(&mut ses, &mut sut, "migrate sender=10 from=1");
+        do_op(&mut ses, &mut sut, "add sender=10 members=231 counts=1");
+        do_op(&mut ses, &mut sut, &format!("end sender=10 t={}", s + 10));
+        do_op(&mut ses, &mut sut, &format!("t {}", s + 10));
+        do_op(&mut ses, &mut sut, &format!("remove sender=10 members={}", fmt_list(&all[27..28])));
+        do_op(&mut ses, &mut sut, "pal sender=10 n=2");
+        ses.end_case();
     }
 
     // ---------------------------------------------------------------- A. instantiate time grid
@@ -608,6 +1185,8 @@ fn main() {
     }
 
     // ---------------------------------------------------------------- B. instantiate: single faults outside the schedule
+    // (environment for C12: the outcome of these checks is the `envok` witness; what is compared is that instantiate succeeds
+    //  exactly when envok AND the three time checks pass)
     for v in 0..3usize {
         let base = Inst::valid(v, G + 100, G + 200);
         let fee = |l: u64| fee_for(v, l);
@@ -620,8 +1199,7 @@ fn main() {
             muts.push(("pal", Inst { pal: p, ..base.clone() }));
         }
         let f = fee(1000);
-        for (n, fu) in [("none", vec![]), ("less", vec![(0u128, f - 1)]), ("more", vec![(0, f + 1)]), ("denom", vec![(1, f)]), ("two", vec![(0, f), (1, 5)]), ("two-r", vec![(1, 5), (0, f)])] {
-            let _ = n;
+        for fu in [vec![], vec![(0u128, f - 1)], vec![(0, f + 1)], vec![(1, f)], vec![(0, f), (1, 5)], vec![(1, 5), (0, f)]] {
             muts.push(("funds", Inst { funds: fu, ..base.clone() }));
         }
         muts.push(("members-over", Inst { limit: 2, funds: vec![(0, fee(2))], members: vec![30, 31, 32], ..base.clone() }));
@@ -641,15 +1219,21 @@ fn main() {
         muts.push(("sender-not-admin", Inst { sender: 20, ..base.clone() }));
         muts.push(("immutable", Inst { mutable: false, ..base.clone() }));
         for (name, m) in muts {
-            ses.begin_case(&mut sut, &format!("case v={v} now={} inst-fault {name}", G + 50));
-            let ok = do_op(&mut ses, &mut sut, &m.line());
-            ses.mark(format!("{}:inst-fault:{name}:{ok}", VN[v]));
-            let s = m.admins.first().copied().unwrap_or(10);
-            do_op(&mut ses, &mut sut, &format!("start sender={s} t={}", G + 120));
-            do_op(&mut ses, &mut sut, &format!("can a={s}"));
-            do_op(&mut ses, &mut sut, "freeze sender=10");
-            do_op(&mut ses, &mut sut, "admins sender=10 list=12");
-            ses.end_case();
+            // the same single fault with a good schedule and with each of the three time faults: envok and the time checks compose
+            for (tf, st, en, now) in [("sched-ok", m.start, m.end, G + 50), ("start=now", G + 50, m.end, G + 50), ("end<start", m.start, m.start - 1, G + 50)] {
+                if tf != "sched-ok" && !matches!(name, "valid" | "funds" | "limit" | "root") {
+                    continue;
+                }
+                ses.begin_case(&mut sut, &format!("case v={v} now={now} inst-fault {name} {tf}"));
+                let ok = do_op(&mut ses, &mut sut, &Inst { start: st, end: en, ..m.clone() }.line());
+                ses.mark(format!("{}:inst-fault:{name}:{tf}:{ok}", VN[v]));
+                let s = m.admins.first().copied().unwrap_or(10);
+                do_op(&mut ses, &mut sut, &format!("start sender={s} t={}", G + 120));
+                do_op(&mut ses, &mut sut, &format!("can a={s}"));
+                do_op(&mut ses, &mut sut, "freeze sender=10");
+                do_op(&mut ses, &mut sut, "admins sender=10 list=12");
+                ses.end_case();
+            }
         }
     }
 
@@ -684,6 +1268,10 @@ fn main() {
                 ops.push("remove sender=11 members=30,30".to_string());
                 ops.push("add sender=10 members=33,34 counts=1,1".to_string());
                 ops.push(format!("inclimit sender=20 n=2000 funds=0:{}", fee_for(v, 1000)));
+                ops.push("migrate sender=10 from=1".to_string());
+                for n in &extra {
+                    ops.push(format!("x name={n} k={} sender=10", now + 1));
+                }
                 for op in ops {
                     ses.begin_case(&mut sut, &format!("case v={v} now={now0} update-grid"));
                     do_op(&mut ses, &mut sut, &Inst::valid(v, start, end).line());
@@ -731,42 +1319,45 @@ fn main() {
             let Some(o) = sut.cur.clone() else { break };
             // clock
             if rng.chance(1, 2) {
-                let cands: Vec<u64> = interesting_times(&o).into_iter().filter(|t| *t >= o.now && *t <= o.end.saturating_add(3)).collect();
+                let cands: Vec<u64> = interesting_times(&o).into_iter().filter(|t| *t >= o.now && *t <= o.e().saturating_add(3)).collect();
                 let t = if !cands.is_empty() && rng.chance(2, 3) { *rng.pick(&cands) } else { o.now + rng.range(0, 8) * unit };
                 do_op(&mut ses, &mut sut, &format!("t {t}"));
             }
             let Some(o) = sut.cur.clone() else { break };
-            let sender = if rng.chance(4, 5) && !o.admins.is_empty() { *rng.pick(&o.admins) } else { *rng.pick(&SENDERS) };
-            let arg = if rng.chance(7, 10) { *rng.pick(&interesting_times(&o)) } else { rng.range(G - 10, o.end.saturating_add(50 * unit).max(G)) };
+            let admins = sut.ghost.as_ref().map(|g| g.admins.clone()).unwrap_or_default();
+            let sender = if rng.chance(4, 5) && !admins.is_empty() { *rng.pick(&admins) } else { *rng.pick(&SENDERS) };
+            let arg = if rng.chance(7, 10) { *rng.pick(&interesting_times(&o)) } else { rng.range(G - 10, o.e().saturating_add(50 * unit).max(G)) };
             let funds = if rng.chance(1, 12) { " funds=0:7" } else { "" };
             let line = match rng.below(100) {
-                0..=27 => format!("start sender={sender} t={arg}{funds}"),
-                28..=55 => format!("end sender={sender} t={arg}{funds}"),
-                56..=69 => {
+                0..=25 => format!("start sender={sender} t={arg}{funds}"),
+                26..=51 => format!("end sender={sender} t={arg}{funds}"),
+                52..=65 => {
                     let k = rng.range(0, 2);
                     let ms: Vec<u64> = (0..k).map(|_| rng.range(30, 36)).collect();
                     format!("remove sender={sender} members={}", fmt_list(&ms))
                 }
-                70..=77 => {
+                66..=73 => {
                     let k = rng.range(1, 3);
                     let ms: Vec<u64> = (0..k).map(|_| rng.range(30, 36)).collect();
                     let cs: Vec<u64> = ms.iter().map(|_| rng.range(1, 5)).collect();
                     format!("add sender={sender} members={} counts={}", fmt_list(&ms), fmt_list(&cs))
                 }
-                78..=83 => format!("pal sender={sender} n={}", *rng.pick(&[0u64, 1, 29, 30, 31, 7])),
-                84..=88 => {
+                74..=78 => format!("pal sender={sender} n={}", *rng.pick(&[0u64, 1, 29, 30, 31, 7])),
+                79..=83 => {
                     let mut l: Vec<u64> = vec![10, 11, 12, 13];
                     rng.shuffle(&mut l);
                     l.truncate(rng.range(0, 3) as usize);
                     format!("admins sender={sender} list={}", fmt_list(&l))
                 }
-                89..=90 => format!("freeze sender={sender}"),
-                91..=94 => {
+                84..=85 => format!("freeze sender={sender}"),
+                86..=89 => {
                     let n = *rng.pick(&[1000u64, 1001, 1500, 2000, 2001, 5000, 5001]);
                     let fee = fee_for(v, n).saturating_sub(fee_for(v, 1000));
                     let f = if fee > 0 && rng.chance(4, 5) { format!("0:{fee}") } else { "-".into() };
                     format!("inclimit sender={sender} n={n} funds={f}")
                 }
+                90..=94 => format!("x name={} k={arg} sender={sender}", rng.pick(&extra)),
+                95..=96 => format!("migrate sender={sender} from={}", rng.below(2)),
                 _ => format!("can a={sender}"),
             };
             do_op(&mut ses, &mut sut, &line);
@@ -814,8 +1405,59 @@ fn main() {
     }
     ses.count(&format!("lattice:depth{depth}:alphabet{}", alphabet.len()));
 
+    // ---------------------------------------------------------------- coverage floor (must hold for every seed; all from the
+    // deterministic sections D, S, M, A, C) — without these the run would be vacuous for a clause of the property
+    for v in 0..3usize {
+        let vn = VN[v];
+        // creation: accepted one nanosecond into the future / at genesis / with end = start; rejected at now, genesis-1, end = start-1
+        ses.require(format!("floor:{vn}:inst:ok:start-now=1:"));
+        ses.require(format!("floor:{vn}:inst:err:start-now=0:"));
+        ses.require(format!("floor:{vn}:inst:ok:start-now=2:start-g=0:"));
+        ses.require(format!("floor:{vn}:inst:err:start-now=1:start-g=-1:"));
+        ses.require(format!("floor:{vn}:inst:ok:start-now=2:start-g=2:end-start=0"));
+        ses.require(format!("floor:{vn}:inst:err:start-now=2:start-g=2:end-start=-1"));
+        // start update: accepted at start-1, rejected at start and after; by an admin / rejected for a stranger
+        ses.require(format!("floor:{vn}:start:ok:ph=s-1:adm"));
+        ses.require(format!("floor:{vn}:start:err:ph=s:adm"));
+        ses.require(format!("floor:{vn}:start:err:ph=s+1:adm"));
+        ses.require(format!("floor:{vn}:start:err:ph=s-1:non"));
+        // end update: extension accepted at start-1, rejected at start; shortening accepted once started, down to start, not below
+        ses.require(format!("floor:{vn}:end-extend:ok:ph=s-1:adm"));
+        ses.require(format!("floor:{vn}:end-extend:err:ph=s:adm"));
+        ses.require(format!("floor:{vn}:end-shorten:ok:ph=s:adm"));
+        ses.require(format!("floor:{vn}:end-shorten:ok:ph=s:adm:arg=s"));
+        ses.require(format!("floor:{vn}:end-below-start:err:ph=s:adm:arg=s-1"));
+        ses.require(format!("floor:{vn}:end-extend:err:ph=s-1:non"));
+        // the four flags answered at every boundary instant
+        for ph in ["s-1", "s", "s+1", "e-1", "e", "e+1"] {
+            ses.require(format!("floor:{vn}:flags:ph={ph}"));
+        }
+        // storage was readable (otherwise the monitors fell back to the Config query — see the note)
+        ses.require(format!("floor:{vn}:raw:readable"));
+        // every other entry point was exercised before and after the start
+        ses.require(format!("floor:{vn}:migrate:from=1:started:"));
+        ses.require(format!("floor:{vn}:migrate:from=0:before:"));
+        for n in &extra {
+            ses.require(format!("floor:{vn}:x:{n}:started:"));
+            ses.require(format!("floor:{vn}:x:{n}:before:"));
+        }
+        ses.require(format!("sent:{vn}:migrate;"));
+        if v < 2 {
+            ses.require(format!("floor:{vn}:remove:ok:ph=s-1:adm"));
+            ses.require(format!("floor:{vn}:remove:err:ph=s:adm"));
+            ses.require(format!("floor:{vn}:remove:err:ph=s-1:non"));
+            ses.require(format!("floor:{vn}:big:remove-26-before-start:true"));
+            ses.require(format!("floor:{vn}:big:remove-after-start:false:false"));
+            ses.require(format!("floor:{vn}:add:started:ok"));
+        }
+    }
+    ses.require("floor:whitelist-merkletree:migrate:from=1:started:ok");
+
+    if sut.raw_unreadable > 0 {
+        ses.note(format!("stored schedule unreadable in {} observations (no single storage value with start_time and end_time): monitors fell back to the Config query there", sut.raw_unreadable));
+    }
     ses.note("clock: every comparison probed at t-1ns, t, t+1ns for t in {genesis, start, end, now}; schedules incl. start=genesis, start=end, end=start+1ns");
-    ses.note("three variants x (instantiate time grid, single-fault instantiate, update grid at boundary instants x admin/stranger, named interleavings, boundary-biased random walks, all sequences of length <= depth over a 4-instant lattice incl. backward clock jumps)");
-    ses.note("membership is environment: `present` = HasMember of every listed address before RemoveMembers; AddMembers / IncreaseMemberLimit outcome witnessed, schedule must stay put");
+    ses.note("three variants x (named interleavings incl. same-block repeats, surface tour of every schema variant / probe / migrate at six phases, 101-member lists, instantiate time grid, single-fault instantiate x time fault, update grid at boundary instants x admin/stranger, boundary-biased random walks, all sequences of length <= depth over a 4-instant lattice incl. backward clock jumps)");
+    ses.note("monitor truths: schedule read from contract storage (layout-free scan), harness clock, harness's own admin list and member set (what it sent and saw accepted); non-schedule instantiate checks, UpdatePerAddressLimit, AddMembers, IncreaseMemberLimit, migrate and unknown variants are witnesses (environment) — only constrained not to move schedule or members");
     ses.finish(&mut sut);
 }
